@@ -262,6 +262,19 @@ func runC02(t *testing.T, tape *sim.Tape, tier string) *Outcome {
 		want = append(want, v)
 		data = append(data, v.Encode()...)
 	}
+	if tape.Draw(64, "widearray") == 63 { // 0 stays the cheap choice
+		// an array with very many elements (element counts around 2^16) followed by one more value
+		n := []int{65535, 65536, 65537, 70000, 131073}[tape.Draw(5, "width")]
+		v := resp.Value{K: resp.Array, A: make([]resp.Value, n)}
+		for i := range v.A {
+			v.A[i] = resp.In(int64(i % 7))
+		}
+		tail := resp.St("after")
+		want = append(want, v, tail)
+		data = append(data, v.Encode()...)
+		data = append(data, tail.Encode()...)
+		o.stat("wide_arrays", 1)
+	}
 	wrapNames := []string{"", " behind bufio(16)", " behind bufio(4096)"}
 	checkW := func(r *scriptedReader, desc string, wrap int, deferred bool) {
 		o.Evals++
@@ -278,6 +291,7 @@ func runC02(t *testing.T, tape *sim.Tape, tier string) *Outcome {
 		o.Hashes = append(o.Hashes, hash64(desc+string(data)))
 	}
 	check := func(r *scriptedReader, desc string) { checkW(r, desc, 0, false) }
+	_ = check
 	// whole
 	check(&scriptedReader{data: data}, "whole")
 	checkW(&scriptedReader{data: data}, "whole", 1, true)
@@ -292,6 +306,46 @@ func runC02(t *testing.T, tape *sim.Tape, tier string) *Outcome {
 		o.stat("two_way_splits", len(data)-1)
 		check(&scriptedReader{data: data, one: true}, "all-1-byte")
 		o.stat("all_one_byte", 1)
+	}
+	// large bulks: 2-way splits in a window around every power-of-two offset of the payload (where growing
+	// buffers change their size), with the following value arriving in the same read as the bulk's tail
+	if len(data) > 4096 {
+		off := 0
+		var starts [][2]int
+		var walk func(v resp.Value)
+		walk = func(v resp.Value) {
+			switch {
+			case v.K == resp.Array && !v.Null:
+				off += len(fmt.Sprintf("*%d\r\n", len(v.A)))
+				for _, e := range v.A {
+					walk(e)
+				}
+			case v.K == resp.Bulk && !v.Null:
+				off += len(fmt.Sprintf("$%d\r\n", len(v.S)))
+				if len(v.S) >= 1024 {
+					starts = append(starts, [2]int{off, len(v.S)})
+				}
+				off += len(v.S) + 2
+			default:
+				off += len(v.Encode())
+			}
+		}
+		for _, v := range want {
+			walk(v)
+		}
+		n := 0
+		for _, st := range starts {
+			for pw := 1 << 10; pw <= st[1]+2; pw <<= 1 {
+				for d := -20; d <= 4; d++ {
+					c := st[0] + pw + d
+					if c > 0 && c < len(data) {
+						checkW(&scriptedReader{data: data, cuts: []int{c}, piggy: d%2 == 0}, fmt.Sprintf("split@%d (payload offset 2^k%+d)", c, d), 0, false)
+						n++
+					}
+				}
+			}
+		}
+		o.stat("splits_around_power_of_two_payload_offsets", n)
 	}
 	// seeded k-way partitions biased to structural offsets
 	so := structuralOffsets(data)
@@ -343,7 +397,7 @@ func init() {
 	register(&Check{
 		ID: "C02", Bubble: false, Run: runC02,
 		Runs:   map[string]int{"quick": 6000, "thorough": 200000},
-		Rule:   "a case is one (value sequence, read partition) pair: every 2-way split and the all-1-byte delivery of each generated stream <= 4 KiB plus 4 seeded k-way partitions biased to structural offsets; every split is also delivered through a bufio.Reader (16-byte and default buffer) in front of the chunking reader with the returned messages inspected only after the whole stream was parsed (a parsed value must not change when the parser reads on), end of stream arriving alone or together with the last bytes; distinct = distinct (stream, partition) hashes; non-trivial = stream longer than 4 bytes",
+		Rule:   "a case is one (value sequence, read partition) pair: every 2-way split and the all-1-byte delivery of each generated stream <= 4 KiB plus 4 seeded k-way partitions biased to structural offsets; for streams with bulks of 1 KiB..128 KiB every split within [-20,+4] bytes of each power-of-two offset of the payload; every split is also delivered through a bufio.Reader (16-byte and default buffer) in front of the chunking reader with the returned messages inspected only after the whole stream was parsed (a parsed value must not change when the parser reads on), end of stream arriving alone or together with the last bytes; distinct = distinct (stream, partition) hashes; non-trivial = stream longer than 4 bytes",
 		Real:   []string{"redis/proto parser (NewParserWithReader, Next)"},
 		Stub:   []string{"transport: scripted io.Reader deciding read sizes and end-of-stream style"},
 		Assume: []string{"readers never return (0, nil)"},
